@@ -305,6 +305,8 @@ def r172(eng, rep, reach) -> None:
                     continue  # a reference to the shared object, not its state
                 for gq in reach:
                     g = prog.functions[gq]
+                    if g.module.name == "fcp.error":
+                        continue  # diagnostics: the logger's own bookkeeping does not reach an artefact
                     gt = eng.T.fn(g)
                     for x in ast.walk(g.node):
                         if isinstance(x, ast.Attribute) and isinstance(x.ctx, ast.Load) and x.attr == attr:
@@ -334,7 +336,17 @@ def r172(eng, rep, reach) -> None:
             while isinstance(root, (ast.Attribute, ast.Subscript)):
                 root = root.value
             if isinstance(root, ast.Name) and root.id in m.assigns and root.id not in loc and not (kind == "aug" and isinstance(tgt, ast.Name)):
-                rep.violation("R17.2", f.file, f.qual, norm(st, 70), "module-level object '%s' is mutated on a generate path: results depend on what the process generated or parsed before" % root.id)
+                # a cache whose key is built from the complete content it depends on cannot return a stale value;
+                # whether the key is complete is not decided here
+                content_keyed = False
+                if kind == "sub-store" and isinstance(tgt, ast.Subscript):
+                    from ..dataflow import deep_resolve
+                    kx = norm(deep_resolve(f.node, tgt.slice), 400)
+                    content_keyed = any(t_ in kx for t_ in ("frozenset(", "tuple(", "hash(", "digest", ".read(", "get_source(", "sorted("))
+                if content_keyed:
+                    rep.undecided("R17.2", f.file, f.qual, norm(st, 70), "module-level cache '%s' keyed by a value computed from content (%s); completeness of the key is not decided" % (root.id, norm(tgt.slice, 30)))
+                else:
+                    rep.violation("R17.2", f.file, f.qual, norm(st, 70), "module-level object '%s' is mutated on a generate path: results depend on what the process generated or parsed before" % root.id)
         for n2 in walk_local(f.node):
             if isinstance(n2, ast.Global):
                 rep.violation("R17.2", f.file, f.qual, norm(n2, 40), "generate path rebinds module-level state")
